@@ -221,7 +221,7 @@ func (rn *Runner) Run() {
 	present := map[string]interface{}{}
 	for id, t := range sc.Toks {
 		if t.A != "" {
-			present[id] = strings.Contains(strings.ToLower(decoded), strings.ToLower(t.A))
+			present[id] = strings.Contains(strings.ToLower(decoded), strings.ToLower(t.A)) || strings.Contains(strings.ToLower(decoded), strings.ToLower(t.S))
 		}
 	}
 	r.Emit("fields", "from", fields["From"], "to", fields["To"], "cc", fields["Cc"], "replyto", fields["Reply-To"],
@@ -260,14 +260,56 @@ func (rn *Runner) Run() {
 		switch ev["verb"] {
 		case "MAIL":
 			mails++
-			wireMail = between(line)
+			wireMail = canonPath(between(line))
 		case "RCPT":
-			wireRcpts = append(wireRcpts, between(line))
+			wireRcpts = append(wireRcpts, canonPath(between(line)))
 		}
 	}
 	r.Emit("wire", "sent", sendErr == nil, "mails", mails, "mail", wireMail, "rcpts", wireRcpts, "delivered", m.IsDelivered())
 	r.Emit("end", "t", rn.T)
 	r.Seal()
+}
+
+// canonPath reads the path of a MAIL / RCPT command as RFC 5321 4.1.2 defines a Mailbox (Dot-string or Quoted-string,
+// "@", Domain) and returns local part (unquoted) + "@" + domain; a path that is no Mailbox comes back marked.
+func canonPath(p string) string {
+	if p == "" {
+		return p
+	}
+	bad := "<not a mailbox: " + p + ">"
+	local, rest := "", ""
+	if p[0] == '"' {
+		i := 1
+		var b strings.Builder
+		for ; i < len(p) && p[i] != '"'; i++ {
+			if p[i] == '\\' {
+				i++
+				if i >= len(p) {
+					return bad
+				}
+			}
+			b.WriteByte(p[i])
+		}
+		if i >= len(p) {
+			return bad
+		}
+		local, rest = b.String(), p[i+1:]
+	} else {
+		i := strings.IndexByte(p, '@')
+		if i <= 0 {
+			return bad
+		}
+		local, rest = p[:i], p[i:]
+		for _, c := range local {
+			if !(c >= 'a' && c <= 'z' || c >= 'A' && c <= 'Z' || c >= '0' && c <= '9' || strings.ContainsRune("!#$%&'*+-/=?^_`{|}~.", c) || c >= 0x80) {
+				return bad
+			}
+		}
+	}
+	if len(rest) < 2 || rest[0] != '@' || strings.ContainsAny(rest[1:], "@\" <>") {
+		return bad
+	}
+	return local + rest
 }
 
 func between(line string) string {
